@@ -3182,7 +3182,7 @@ class Group(System):
                     yield wrt, start, end, vec, sub_wrt_idx, dist_sizes
                     start = end
         else:
-            yield from super()._get_jac_wrts(wrt_matches)
+            yield from super()._jac_wrt_iter(wrt_matches)
 
     def _promoted_wrt_iter(self):
         if not (self._owns_approx_of or self.pathname):
